@@ -169,9 +169,10 @@ Lemma trace_ext l1 l2 b I1 I2 : (forall t f, l1 t f = l2 t f) -> faithful I1 -> 
 Proof.
   intros H F1 F2. induction ops as [|o r IH]; intros p ad1 ad2 k; simpl; [reflexivity|].
   assert (fst (fst (step l1 b I1 p ad1 k o)) = fst (fst (step l2 b I2 p ad2 k o)) /\ snd (step l1 b I1 p ad1 k o) = snd (step l2 b I2 p ad2 k o)) as [E1 E2].
-  { destruct o as [sc|t f args]; simpl.
+  { destruct o as [sc|t f args|]; simpl.
     - destruct b; split; reflexivity.
-    - rewrite H. destruct (l2 t f) as [[sg s]|]; [|split; reflexivity]. apply (apply_sem_indep I1 I2 F1 F2). }
+    - rewrite H. destruct (l2 t f) as [[sg s]|]; [|split; reflexivity]. apply (apply_sem_indep I1 I2 F1 F2).
+    - split; reflexivity. }
   destruct (step l1 b I1 p ad1 k o) as [[p1 a1] x1]. destruct (step l2 b I2 p ad2 k o) as [[p2 a2] x2]. simpl in E1, E2. subst.
   f_equal. apply IH.
 Qed.
@@ -338,7 +339,7 @@ Proof.
 Qed.
 Lemma rstep_swap Lc Lx s k x : mirror Lc Lx -> rstep Lx (rs_swap s) k x = rs_swap (rstep Lc s k x).
 Proof.
-  intros Hm. pose proof Hm as [Hg [_ Hk]]. destruct x as [sc0|h method args target|h method args| | | | | |]; try reflexivity; simpl.
+  intros Hm. pose proof Hm as [Hg [_ Hk]]. destruct x as [sc0|h method args target|h method args| | | | | | |]; try reflexivity; simpl.
   - rewrite Hg. apply rs_set_swap.
   - destruct h as [sc| | |]; try reflexivity. destruct target; try reflexivity. destruct (method =? "actualCall"); [|reflexivity].
     rewrite rs_get_swap. destruct (rs_get s sc) as [r|]; [|reflexivity]. simpl. unfold rs_swap. simpl. f_equal.
@@ -357,6 +358,8 @@ Proof.
     rewrite <- (armed_swap s'). f_equal. destruct (find _ (rs_calls s' ++ rs_calls s)); reflexivity.
   - destruct (receiver x) as [sc|]; [|reflexivity]. rewrite (rs_clear_swap Lc Lx) by exact Hm. rewrite rs_get_swap. apply armed_swap.
 Qed.
+Lemma rs_failed_swap Lc Lx s' x b : mirror Lc Lx -> rs_failed Lx (rs_swap s') x b = rs_swap (rs_failed Lc s' x b).
+Proof. intros Hm. unfold rs_failed. destruct b; try reflexivity. destruct (receiver x); [now apply rs_clear_swap | reflexivity]. Qed.
 Lemma rstate0_swap : rs_swap rstate0 = rstate0. Proof. reflexivity. Qed.
 
 Section AnyMachine.
@@ -366,16 +369,38 @@ Section AnyMachine.
   Variables Lc Lx : rlayer.
   Hypothesis layers : mirror Lc Lx.
 
-  Lemma exec_same : forall tr st rs k vals, exec M Lc observe_c st rs k tr vals = exec M Lx (fun _ => observe_x) st (rs_swap rs) k tr vals.
+  Lemma exec_same : forall tr st rs k vals done skip,
+    exec M Lc observe_c st rs k tr vals done skip = exec M Lx (fun _ => observe_x) st (rs_swap rs) k tr vals done skip.
   Proof.
-    induction tr as [|x r IH]; intros st rs k vals; simpl; [reflexivity|].
-    pose proof (typed st k x) as T. destruct (mexec M st k x) as [st' res]. simpl in T.
-    rewrite (rstep_swap Lc Lx) by exact layers.
-    destruct (r_fail res); [now rewrite (crash_on_swap Lc Lx) by exact layers|]. rewrite (observe_same _ _ T). apply IH.
+    induction tr as [|x r IH]; intros st rs k vals done skip; [reflexivity|].
+    assert (forall y, y = x ->
+              (if skip then exec M Lc observe_c st rs (S k) r vals done true
+               else let (st', res) := mexec M st k y in
+                    let rs' := rstep Lc rs k y in
+                    match r_fail res with
+                    | Some text => exec M Lc observe_c st' (rs_failed Lc rs' y (r_by res)) (S k) r vals
+                                     ({| t_fail := Some (N.of_nat k, text); t_crash := crash_on Lc rs rs' y (r_by res) |} :: done) true
+                    | None => exec M Lc observe_c st' rs' (S k) r
+                                (match observe_c (wrap_of y) (r_val res) with Some c => {| v_op := N.of_nat k; v_canon := c |} :: vals | None => vals end) done false
+                    end)
+              = (if skip then exec M Lx (fun _ => observe_x) st (rs_swap rs) (S k) r vals done true
+                 else let (st', res) := mexec M st k y in
+                      let rs' := rstep Lx (rs_swap rs) k y in
+                      match r_fail res with
+                      | Some text => exec M Lx (fun _ => observe_x) st' (rs_failed Lx rs' y (r_by res)) (S k) r vals
+                                       ({| t_fail := Some (N.of_nat k, text); t_crash := crash_on Lx (rs_swap rs) rs' y (r_by res) |} :: done) true
+                      | None => exec M Lx (fun _ => observe_x) st' rs' (S k) r
+                                  (match observe_x (r_val res) with Some c => {| v_op := N.of_nat k; v_canon := c |} :: vals | None => vals end) done false
+                      end)) as G.
+    { intros y _. destruct skip; [apply IH|]. pose proof (typed st k y) as T. destruct (mexec M st k y) as [st' res]. simpl in T. cbv zeta.
+      rewrite (rstep_swap Lc Lx) by exact layers. destruct (r_fail res).
+      - rewrite (crash_on_swap Lc Lx), (rs_failed_swap Lc Lx) by exact layers. apply IH.
+      - rewrite (observe_same _ _ T). apply IH. }
+    destruct x; try exact (G _ eq_refl). simpl. apply IH.
   Qed.
 
   Lemma halves_identical_layers : forall ops, o_c (run_layers Lc Lx M ops) = o_x (run_layers Lc Lx M ops).
-  Proof. intros ops. unfold run_layers. simpl. rewrite equiv_trace. exact (exec_same _ _ rstate0 _ _). Qed.
+  Proof. intros ops. unfold run_layers. simpl. rewrite equiv_trace. exact (exec_same _ _ rstate0 _ _ _ _). Qed.
 End AnyMachine.
 
 (* the layers of the real code: through C every support is selected with failureReporterForC, through C++ with the standard reporter *)
@@ -397,11 +422,12 @@ Proof.
 Qed.
 Lemma list_eqb_refl {A} (e : A -> A -> bool) : (forall x, e x x = true) -> forall l, list_eqb e l l = true.
 Proof. intros H l. induction l; simpl; [reflexivity|]. now rewrite H, IHl. Qed.
+Lemma tres_eqb_refl t : tres_eqb t t = true.
+Proof. unfold tres_eqb. destruct (t_fail t) as [[i s]|]; simpl; now rewrite ?N.eqb_refl, ?bytes_eqb_refl. Qed.
 Lemma half_eqb_refl h : half_eqb h h = true.
 Proof.
   unfold half_eqb. rewrite !andb_true_iff. repeat split.
-  - destruct (h_fail h) as [[i s]|]; [|reflexivity]. now rewrite N.eqb_refl, bytes_eqb_refl.
-  - apply N.eqb_refl.
+  - apply list_eqb_refl. exact tres_eqb_refl.
   - apply list_eqb_refl. intros x. now rewrite N.eqb_refl, canon_eqb_refl.
   - apply list_eqb_refl. intros x. now rewrite N.eqb_refl, bytes_eqb_refl.
 Qed.
@@ -422,7 +448,7 @@ Proof. intros s _. exact (equiv_obs machine0 machine0_typed s). Qed.
 
 (* ---------------------------------------------------------------- the crash hook, interface by interface *)
 Lemma crash_equiv : forall (M : machine), (forall st k x, fits (wrap_of x) (r_val (snd (mexec M st k x))) = true) -> forall ops,
-  h_fail (o_c (run_with M ops)) = h_fail (o_x (run_with M ops)) /\ h_crash (o_c (run_with M ops)) = h_crash (o_x (run_with M ops)).
+  h_tests (o_c (run_with M ops)) = h_tests (o_x (run_with M ops)).
 Proof. intros M T ops. now rewrite (halves_identical M T ops). Qed.
 
 (* a layer keeps reporter G: every support is selected with G, clear() and createActualCall pass on what they find *)
@@ -452,7 +478,7 @@ Qed.
 Lemma rstep_uniform G L s k x : keeps G L -> uniform G s -> uniform G (rstep L s k x).
 Proof.
   intros HL Hu. pose proof HL as [Hg [_ Hcall]]. pose proof Hu as [Ha Hk].
-  destruct x as [sc0|h method args target|h method args| | | | | |]; try exact Hu; simpl.
+  destruct x as [sc0|h method args target|h method args| | | | | | |]; try exact Hu; simpl.
   - split; simpl; [|exact Hk]. intros e [<-|Hin]; [apply Hg|]. apply filter_In in Hin. now apply Ha.
   - destruct h as [sc| | |]; try exact Hu. destruct target; try exact Hu. destruct (method =? "actualCall"); [|exact Hu].
     destruct (rs_get s sc) as [r|] eqn:E; [|exact Hu]. split; simpl; [exact Ha|].
@@ -463,6 +489,8 @@ Proof.
       destruct (rs_get s sc) as [r|]; [|exact Hu]. destruct r; exact Hu.
     + destruct (method =? "clear"); [now apply rs_clear_uniform | exact Hu].
 Qed.
+Lemma rs_failed_uniform G L s x b : keeps G L -> uniform G s -> uniform G (rs_failed L s x b).
+Proof. intros HL Hu. unfold rs_failed. destruct b; try exact Hu. destruct (receiver x); [now apply rs_clear_uniform | exact Hu]. Qed.
 Fixpoint rs_run (L : rlayer) (s : rstate) (k : nat) (tr : list xop) : rstate :=
   match tr with [] => s | x :: r => rs_run L (rstep L s k x) (S k) r end.
 Lemma rs_run_uniform G L : keeps G L -> forall tr s k, uniform G s -> uniform G (rs_run L s k tr).
@@ -510,12 +538,19 @@ Proof.
 Qed.
 
 (* ---------------------------------------------------------------- changed code is another layer: three ways to lose the C reporter *)
-(* a machine whose op number k0 fails (empty text), raised by `b`; nothing else happens *)
-Definition machine_fail (k0 : nat) (b : raiser) : machine :=
+(* a machine whose ops listed in `l` fail (empty text), each raised by whom the list says; nothing else happens *)
+Definition machine_fails (l : list (nat * raiser)) : machine :=
   {| mst := unit; minit := tt;
-     mexec := fun st k _ => (st, {| r_fail := if Nat.eqb k k0 then Some [] else None; r_by := b; r_val := RNone |}); mouts := fun _ => [] |}.
+     mexec := fun st k _ => (st, match find (fun e => Nat.eqb (fst e) k) l with
+                                 | Some e => {| r_fail := Some []; r_by := snd e; r_val := RNone |}
+                                 | None => {| r_fail := None; r_by := ByAssert; r_val := RNone |}
+                                 end);
+     mouts := fun _ => [] |}.
+Definition machine_fail (k0 : nat) (b : raiser) : machine := machine_fails [(k0, b)].
+Lemma machine_fails_typed l : forall st k x, fits (wrap_of x) (r_val (snd (mexec (machine_fails l) st k x))) = true.
+Proof. intros st k x. simpl. destruct (find _ l); simpl; destruct (wrap_of x); reflexivity. Qed.
 Lemma machine_fail_typed k0 b : forall st k x, fits (wrap_of x) (r_val (snd (mexec (machine_fail k0 b) st k x))) = true.
-Proof. intros st k x. simpl. destruct (wrap_of x); reflexivity. Qed.
+Proof. exact (machine_fails_typed _). Qed.
 Definition layer_equiv_stmt (Lc : rlayer) : Prop :=
   forall M, (forall st k x, fits (wrap_of x) (r_val (snd (mexec M st k x))) = true) -> forall ops, spec ops (run_layers Lc x_layer M ops) = true.
 (* MockSupport::clear() puts the standard reporter back (activeReporter_ = standardReporter_), and failTest clears before it reports *)
@@ -617,29 +652,44 @@ Definition machine1 : machine :=
      mouts := fun _ => [] |}.
 Lemma machine1_typed : forall st k x, fits (wrap_of x) (r_val (snd (mexec machine1 st k x))) = true.
 Proof. intros st k x. simpl. destruct (wrap_of x) eqn:E; try reflexivity. destruct x; reflexivity. Qed.
-Example ex_machine1 : h_vals (o_c (run_with machine1 ex_scenario)) =
+Example ex_machine1 : h_tests (o_c (run_with machine1 ex_scenario)) = [t_pass] /\ h_vals (o_c (run_with machine1 ex_scenario)) =
   [ {| v_op := 7; v_canon := CI TULong 18446744073709551615 |}; {| v_op := 8; v_canon := CI TLLong (-5) |} ].
-Proof. vm_compute. reflexivity. Qed.
+Proof. vm_compute. split; reflexivity. Qed.
 
 (* the crash hook: non-vacuous on both sides, lost by the changed layers exactly where the theorems say *)
-Example ex_crash_check : h_crash (o_c (run_with (machine_fail 3 BySupport) crash_on_check)) = 1%N
-                         /\ h_crash (o_x (run_with (machine_fail 3 BySupport) crash_on_check)) = 1%N
-                         /\ h_fail (o_c (run_with (machine_fail 3 BySupport) crash_on_check)) = Some (3%N, [])
-                         /\ h_crash (o_c (run_layers clear_resets_layer x_layer (machine_fail 3 BySupport) crash_on_check)) = 0%N.
+Definition crashes (h : half) : list N := map t_crash (h_tests h).
+Example ex_crash_check : h_tests (o_c (run_with (machine_fail 3 BySupport) crash_on_check)) = [ {| t_fail := Some (3%N, []); t_crash := 1 |} ]
+                         /\ h_tests (o_x (run_with (machine_fail 3 BySupport) crash_on_check)) = [ {| t_fail := Some (3%N, []); t_crash := 1 |} ]
+                         /\ crashes (o_c (run_layers clear_resets_layer x_layer (machine_fail 3 BySupport) crash_on_check)) = [0%N].
 Proof. vm_compute. repeat split. Qed.
-Example ex_crash_other : h_crash (o_c (run_with (machine_fail 3 (ByCall 3)) crash_in_scope)) = 1%N
-                         /\ h_crash (o_c (run_layers scope_null_layer x_layer (machine_fail 3 (ByCall 3)) crash_in_scope)) = 0%N
-                         /\ h_crash (o_c (run_with (machine_fail 2 (ByCall 2)) crash_on_call)) = 1%N
-                         /\ h_crash (o_c (run_layers call_standard_layer x_layer (machine_fail 2 (ByCall 2)) crash_on_call)) = 0%N
-                         /\ h_crash (o_c (run_with (machine_fail 3 ByAssert) crash_on_check)) = 0%N
-                         /\ h_crash (o_c (run_with (machine_fail 3 BySupport) (OSelect None :: OCall TblS "crashOnFailure" [AZ 0] :: tl (tl crash_on_check)))) = 0%N.
+Example ex_crash_other : crashes (o_c (run_with (machine_fail 3 (ByCall 3)) crash_in_scope)) = [1%N]
+                         /\ crashes (o_c (run_layers scope_null_layer x_layer (machine_fail 3 (ByCall 3)) crash_in_scope)) = [0%N]
+                         /\ crashes (o_c (run_with (machine_fail 2 (ByCall 2)) crash_on_call)) = [1%N]
+                         /\ crashes (o_c (run_layers call_standard_layer x_layer (machine_fail 2 (ByCall 2)) crash_on_call)) = [0%N]
+                         /\ crashes (o_c (run_with (machine_fail 3 ByAssert) crash_on_check)) = [0%N]
+                         /\ crashes (o_c (run_with (machine_fail 3 BySupport) (OSelect None :: OCall TblS "crashOnFailure" [AZ 0] :: tl (tl crash_on_check)))) = [0%N].
+Proof. vm_compute. repeat split. Qed.
+(* several tests in a row: the flag and the reporters survive a failing test (whose failTest cleared the support); the second test
+   goes on with the table / reference the user holds, the third turns the flag off; the op after a failure is not executed *)
+Definition ex_three_tests : list op :=
+  [ OSelect None; OCall TblS "crashOnFailure" [AZ 1]; OCall TblS "expectOneCall" [AB (Some [102%N])]; OCall TblS "checkExpectations" [];
+    OCall TblS "actualCall" [AB (Some [103%N])];
+    ONewTest; OCall TblS "actualCall" [AB (Some [103%N])];
+    ONewTest; OCall TblS "crashOnFailure" [AZ 0]; OCall TblS "actualCall" [AB (Some [103%N])];
+    ONewTest; OCall TblS "expectedCallsLeft" [] ].
+Definition ex_three_machine : machine := machine_fails [(3, BySupport); (4, ByCall 4); (6, ByCall 6); (9, ByCall 9)]%nat.
+Example ex_tests : valid ex_three_tests = true
+  /\ h_tests (o_c (run_with ex_three_machine ex_three_tests))
+     = [ {| t_fail := Some (3%N, []); t_crash := 1 |}; {| t_fail := Some (6%N, []); t_crash := 1 |}; {| t_fail := Some (9%N, []); t_crash := 0 |}; t_pass ]
+  /\ h_tests (o_x (run_with ex_three_machine ex_three_tests)) = h_tests (o_c (run_with ex_three_machine ex_three_tests))
+  /\ crashes (o_c (run_layers clear_resets_layer x_layer ex_three_machine ex_three_tests)) = [0; 0; 0; 0]%N.
 Proof. vm_compute. repeat split. Qed.
 (* crashOnFailure is one flag per interface: set through a scope, it holds for a failure the global support raises after a clear *)
 Definition ex_crash_scn : list op :=
   [ OSelect (Some [115%N]); OCall TblS "crashOnFailure" [AZ 4294967295]; OSelect None; OCall TblS "clear" [];
     OCall TblS "expectOneCall" [AB (Some [102%N])]; OCall TblS "checkExpectations" [] ].
 Example ex_crash_scope_clear : valid ex_crash_scn = true
-  /\ h_crash (o_c (run_with (machine_fail 5 BySupport) ex_crash_scn)) = 1%N /\ h_crash (o_x (run_with (machine_fail 5 BySupport) ex_crash_scn)) = 1%N
+  /\ crashes (o_c (run_with (machine_fail 5 BySupport) ex_crash_scn)) = [1%N] /\ crashes (o_x (run_with (machine_fail 5 BySupport) ex_crash_scn)) = [1%N]
   /\ rs_run c_layer rstate0 0 (c_trace ex_crash_scn) = {| rs_std := false; rs_c := true; rs_active := [(None, RepC)]; rs_calls := [] |}
   /\ rs_run x_layer rstate0 0 (x_trace ex_crash_scn) = {| rs_std := true; rs_c := false; rs_active := [(None, RepStd)]; rs_calls := [] |}.
 Proof. vm_compute. repeat split. Qed.
